@@ -39,7 +39,11 @@ def check_can_write(chk) -> None:
     funcs = {q: g.node for q, g in mod.funcs.items() if "." not in q}
     fn = _copy.copy(fi.node)
     try:
-        fn.body = beta_block(unroll_tables(list(fi.node.body), mod.consts), funcs, mod.consts)
+        from sa.normalize import inline_local_lambdas
+
+        src = inline_local_lambdas(fi.node)  # a nested single-return helper (`def numeric_max(column): return ...`) is read at its uses
+        fn = _copy.copy(src)
+        fn.body = beta_block(unroll_tables(list(src.body), mod.consts), funcs, mod.consts)
         ast.fix_missing_locations(fn)
     except Exception:
         fn = fi.node
@@ -66,6 +70,9 @@ def check_can_write(chk) -> None:
             for col, (q, _) in want.items():
                 if norm(e.left) == q and lim is not None:
                     return ("over", col, type(e.ops[0]).__name__, lim)
+            for col, (q, _) in want.items():
+                if lim is not None and any(norm(x) == q for x in ast.walk(e.left)):
+                    return ("skewed", col, norm(e.left), lim)  # the column maximum enters the comparison, but not alone
             if norm(e.left) == "format_type" and isinstance(e.comparators[0], ast.Constant):
                 return ("format", e.comparators[0].value, isinstance(e.ops[0], ast.Eq))
             if isinstance(lim, (int, float)) and not isinstance(lim, bool):
@@ -104,17 +111,21 @@ def check_can_write(chk) -> None:
             # some path must test the limit with `>` and the pinned constant
             overs = [(a, v) for d, rv, st in cif for a, v in d if a and a[0] == "over" and a[1] == col]
             ops = {(a[2], a[3]) for a, v in overs}
+            skew = sorted({(a[2], a[3]) for d, rv, st in cif for a, v in d if a and a[0] == "skewed" and a[1] == col})
+            if skew and not overs:
+                chk.violation("fit-test", fi.where, f"the fit test for {col} compares `{skew[0][0]}` with {skew[0][1]}, not the maximum of {col} itself: the writer's field holds every value up to {lim}, so a table whose values all fit is reported as not fitting (fit_to_pdb then renumbers serials, chains and residues of a table it has to return unchanged) or one that does not fit as fitting", K(fi, f"limit:{col}"), found=list(skew[0]))
+                continue
             if not overs:
                 chk.violation("fit-test", fi.where, f"no path of can_write_pdb compares the maximum of {col} with its limit: a table that violates the PDB limit is reported as fitting (and then returned unchanged by fit_to_pdb)", K(fi, f"limit:{col}"))
                 continue
             chk.expect(ops == {("Gt", lim)}, "fit-test", fi.where, f"a table does not fit when max of {col} exceeds {lim}", f"the fit test for {col} compares with {sorted(ops)}, the PDB limit is `> {lim}`: a table that violates the limit is reported as fitting (and then returned unchanged by fit_to_pdb)", K(fi, f"limit:{col}"), expected=["Gt", lim], found=sorted(ops))
         bad_paths = []
         for d, rv, st in cif:
-            fails = any(a and ((a[0] == "missing" and v == a[2] and a[1] in want) or (a[0] == "over" and v)) for a, v in d)
+            fails = any(a and ((a[0] == "missing" and v == a[2] and a[1] in want) or (a[0] in ("over", "skewed") and v)) for a, v in d)
             if fails and rv is not False:
                 bad_paths.append((st, "a table with a missing column or a value over the limit is reported as fitting"))
             if not fails and rv is not True:
-                covered = {a[1] for a, v in d if a and a[0] == "over"}
+                covered = {a[1] for a, v in d if a and a[0] in ("over", "skewed")}
                 if covered == set(want):
                     bad_paths.append((st, "a table that passes all three limits is reported as not fitting"))
         for st, msg in bad_paths[:2]:
